@@ -32,6 +32,20 @@ CLAIMED = {
         note='Trusted: reference semantics of each override op (documented meaning), RefNet. Path order of wildcard '
              'targets is taken to be declaration order. Known finding KF-C07-stale-state-* confined to its stratum.',
         ref='§3 C07'),
+    'C08': dict(
+        technique=TECH + 'recorded RHS-call history with unique decodable input samples; attribution law at every '
+                         'evaluation',
+        text='Input arrays carry unique, decodable samples (which input, which column, which sample). run() is executed '
+             'with euler, heun and scipy while every RHS evaluation is recorded; at EVERY evaluation the summed input '
+             'each unit received is recovered exactly from (y, dy) and must equal the addressed samples (sample k during '
+             'step k, both Heun stages; linear interpolation on linspace(0, T, N) for adaptive solvers) plus the '
+             'incoming edges. Shapes (N,), (N,1), (N,n) per-node columns, broadcast, wildcard/sub-circuit targets, '
+             'several inputs and edges on one variable, hierarchy depth 0-2, vectorize on/off; functions from '
+             'get_run_func are probed directly at seeded times.',
+        note='Trusted: exact invertibility of the library operators for the summed input; declaration order = path '
+             'order. Default backend only (torch/jax/fortran input helpers are out of reach of the quick tier). Known '
+             'finding KF-C08-input-depth2 (loud).',
+        ref='§3 C08'),
     'C13': dict(
         technique=TECH + 'interleaved user workflows in one process vs each workflow alone in a pristine fork '
                          '(refinement), with API/interrupt/I-O/RHS faults and cache wipes',
@@ -73,7 +87,7 @@ CLAIMED = {
 }
 
 _P = 'check under construction in this session (planned as claimed, see DESIGN §0/§3); not decided yet'
-PENDING = {k: _P for k in ['C08', 'C09', 'C10', 'C11', 'C15']}
+PENDING = {k: _P for k in ['C09', 'C10', 'C11', 'C15']}
 
 NA = {
     'C01': 'pure function of (model, state, parameters): no schedule, clock, fault or history in the statement; '
